@@ -580,7 +580,7 @@ class C05(Prop):
                  "inside one cycle of the real backend(), model/implementation correspondence on outcome sets, register snapshots and control-stack shapes")
     level_text = ("Lean 4 theorems about an executable model of save_context/restore_context/pop_context, "
                   "push/pop_control_stack, do_catch, safe_apply, safe_call_function_pointer, error_handler (guards, heart-beat switch-off, catch_value), "
-                  "the T_ERROR_HANDLER slots, the call_out sweep and one cycle of backend() (command, heart beat, reset/clean_up sweep), for all op "
+                  "the T_ERROR_HANDLER slots incl. the one of destruct_object that restores the names of the vital objects, the call_out sweep and one cycle of backend() (command, heart beat, reset/clean_up sweep), for all op "
                   "trees of any nesting depth and every position of the fault; tied to the source by regenerated frame / "
                   "error-state / origin constants, statement shapes, the saved/restored field and register lists and a classification of every "
                   "file-scope global of the interpreter core, and by running generated LPC programs with a fault injected at every "
@@ -596,7 +596,8 @@ class C05(Prop):
             "call_other incl. surplus arguments, function pointers of every kind, map/filter/sort_array/unique_array "
             "callbacks, catch in catch, error()/throw(), safe applies via sprintf(\"%O\"), create() in load_object/new, "
             "input_to, enable_commands, init() hooks via move_object, move_or_destruct() hooks via destruct, command verbs via command(), "
-            "notify_fail() functions, map/filter over mappings, unique_mapping, the program as a callback of the real call_out() sweep and as one "
+            "notify_fail() functions, map/filter over mappings, unique_mapping, map over strings, implode with a function, message(), self-destructing "
+            "objects, destruct of the master with a reload that fails (refused / error, throw or injected fault in create() of the new copy / nested),  the program as a callback of the real call_out() sweep and as one "
             "cycle of the real backend() (a user command, a heart beat, reset(), clean_up()); master error handlers that run catch()/throw()/callbacks; arity -3..+3 through call_other / function pointers / the driver's "
             "safe_apply and safe_call_function_pointer with 0 or 4 locals; every frame kind at exactly limit-2 / limit-1 / limit "
             "frames of a lowered MaxCallDepth); every program is run once per instruction with a fault injected there; a case "
@@ -605,6 +606,9 @@ class C05(Prop):
                    "'every uncaught first-level error leaves current_heart_beat cleared' is modelled, compared and witnessed, not proved for all programs",
                    "C locals of efuns that are live across a longjmp: inventoried by the translator (41 call-back sites, 4 with an error-handler slot), observed via ASan on 9 efuns, not proved",
                    "value-stack depths inside efuns are approximated (only the depth after recovery is observed)",
+                   "'names of the vital objects after = before' is an oracle clause and compared on every trace; proved at state level (restoreContext_runs_fixNames), not through the induction over all programs",
+                   "the simul_efun branch of destruct_object's vital block (refused from LPC while a master exists); a compile error in the master file as the failing reload",
+                   "call-back sites not driven: f_objects, object_present, fixed master applies (valid_read / valid_seteuid / creator_file run but have no generated body), print_prompt, snoop, logon, ed, parse_command, virtual objects",
                    "preload_objects, console-mode resume, do_slow_shutdown recovery points; varargs callees; get_char"]
 
     # ---- translator (T4-style): statement shapes / orders of the anchor functions, regenerated on every run ----
